@@ -111,7 +111,22 @@ impl<'a, 'b> G<'a, 'b> {
     }
 
     fn arg(&mut self) -> String {
-        match self.t.weighted(&[4, 4, 1, 1, 1, 2]) {
+        match self.t.weighted(&[4, 4, 1, 1, 1, 2, 3]) {
+            6 => {
+                // a call under an operator: the side effect is still there
+                self.st.side_effect_args += 1;
+                let l = self.lit();
+                match self.t.choose(8) {
+                    0 => format!("not probe1({})", l),
+                    1 => format!("-probe1(1)"),
+                    2 => format!("#probe1(\"s\")"),
+                    3 => format!("probe1(1) + 1"),
+                    4 => format!("probe1({}) == {}", l, l),
+                    5 => format!("probe1({}) and 2", l),
+                    6 => format!("{} or probe1({})", l, l),
+                    _ => format!("probe1(\"a\") .. \"b\""),
+                }
+            }
             5 => {
                 // no call in sight, but evaluating it is observable: a field read, an index or an
                 // operator on a value with metamethods (LOUD__ is defined by the prelude)
